@@ -1266,6 +1266,315 @@ def run(ctx, part):
     for fn in ("ep2_mul_pre_yaowi", "ep2_mul_fix_yaowi", "ep2_mul_pre_nafwi", "ep2_mul_fix_nafwi"):
         has(fn)      # declared in relic_epx.h; recorded as not built when absent
 
+    # =========================================================================== library-produced identity
+    # The identity is taken as the RESULT OBJECT of every routine that can produce it (raw bytes and coordinate tag
+    # exactly as returned) and fed back to the consumers; expected values from the model (O + Q = Q, O != finite, O == O).
+    LI = []          # dicts: fam, name, raw, tag, desc
+
+    def li_produce():
+        P = rng.choice(S).P
+        Pn = E.neg(P)
+        nk, zk = R.bn_new(), R.bn_new()
+        R.bn_put(nk, n)
+        R.bn_put(zk, 0)
+
+        def keep(fam, name, res, obj=C):
+            if res.caught:
+                return
+            x, y, z, tag, canon = e.get_raw(obj)
+            if not F2.is_zero(z):
+                return          # not the identity: judged by the ordinary cases of the producer
+            LI.append({"fam": fam, "name": name, "raw": R.get(obj, e.sz), "tag": tag,
+                       "shape": (tag, F2.is_zero(x), F2.is_zero(y)),
+                       "desc": {"producer": name, "x": [hx(v) for v in x], "y": [hx(v) for v in y], "tag": tag}})
+        for fn in ("ep2_add_basic", "ep2_add_projc", "ep2_add_jacob", "ep2_add"):
+            if not R.has(fn):
+                continue
+            for ra in tags_for(fn):
+                for rb in tags_for(fn):
+                    env.wr(A, P, ra)
+                    env.wr(B, Pn, rb)
+                    e.poison(C)
+                    keep(fn[4:], "%s(P,-P)[%s%s]" % (fn, ra, rb), R.call(fn, C, A, B))
+        if R.has("ep2_sub"):
+            for ra in ("A", NAT):
+                env.wr(A, P, ra)
+                e.poison(C)
+                keep("sub", "ep2_sub(P,P)[same object,%s]" % ra, R.call("ep2_sub", C, A, A))
+                env.wr(B, P, ra)
+                e.poison(C)
+                keep("sub", "ep2_sub(P,P')[%s%s]" % (ra, ra), R.call("ep2_sub", C, A, B))
+        for fn in ("ep2_mul_basic", "ep2_mul_slide", "ep2_mul_monty", "ep2_mul_lwnaf", "ep2_mul_lwreg", "ep2_mul"):
+            if not R.has(fn):
+                continue
+            for nm, kk in (("n", nk), ("0", zk)):
+                env.wr(A, P, "A")
+                e.poison(C)
+                keep("mul", "%s(P,%s)" % (fn, nm), R.call(fn, C, A, kk))
+        if R.has("ep2_mul_gen"):
+            e.poison(C)
+            keep("mul", "ep2_mul_gen(n)", R.call("ep2_mul_gen", C, nk))
+        if R.has("ep2_mul_dig"):
+            env.wr(A, P, "A")
+            e.poison(C)
+            keep("mul", "ep2_mul_dig(P,0)", R.call("ep2_mul_dig", C, A, 0))
+        if R.has("ep2_mul_sim_basic"):
+            env.wr(A, P, "A")
+            env.wr(B, Pn, "A")
+            R.bn_put(zk, 5)
+            for fn in ("ep2_mul_sim_basic", "ep2_mul_sim_inter"):
+                e.poison(C)
+                keep("mul_sim", "%s(P,5,-P,5)" % fn, R.call(fn, C, A, zk, B, zk))
+        for q, pt in small:
+            if q == 2:
+                for fn in ("ep2_dbl_basic", "ep2_dbl_projc", "ep2_dbl_jacob"):
+                    for ra in tags_for(fn.replace("dbl", "add")):
+                        env.wr(A, pt, ra)
+                        e.poison(C)
+                        keep("dbl", "%s(T2)[%s]" % (fn, ra), R.call(fn, C, A))
+        e.poison(C)
+        keep("set_infty", "ep2_set_infty", R.call("ep2_set_infty", C))
+        # second generation: neg / norm / copy of the identities above (one per distinct byte image)
+        seen = {}
+        for it in list(LI):
+            seen.setdefault(it["shape"], it)
+        for it in seen.values():
+            for fn in ("ep2_neg", "ep2_norm", "ep2_copy"):
+                ctypes.memmove(A, it["raw"], e.sz)
+                e.poison(C)
+                keep(fn[4:], "%s(%s)" % (fn, it["name"]), R.call(fn, C, A))
+        R.bn_free(nk)
+        R.bn_free(zk)
+
+    def li_load(obj, it):
+        ctypes.memmove(obj, it["raw"], e.sz)
+
+    def li_run(key, desc, fnbody, nontrivial=True):
+        def body():
+            if not ctx.begin(key, desc, nontrivial=nontrivial):
+                return
+            fnbody()
+        guard(body)
+
+    def li_consumers(it):
+        fam, tagc = it["fam"], env.TAG.get(it["tag"], "?")
+        L = "lib-inf:" + fam
+        d0 = it["desc"]
+        EQ, NE = K["RLC_EQ"], K["RLC_NE"]
+
+        # ---- ep2_cmp
+        for form in "APJ":
+            for side in (0, 1):
+                if not mine():
+                    continue
+                Q = anypoint()[1]
+                key = "ep2_cmp|%s|fin:%s" % (L, form) if side == 0 else "ep2_cmp|fin:%s|%s" % (form, L)
+
+                def f(Q=Q, form=form, side=side, key=key):
+                    li_load(A, it)
+                    env.wr(B, Q, form)
+                    res = R.call("ep2_cmp", A, B) if side == 0 else R.call("ep2_cmp", B, A)
+                    ctx.check((not res.caught) and res.i == NE, key + "|value", {"got": res.i, "exp": NE, "caught": res.caught})
+                li_run(key, dict(d0, Q=pd(Q), form=form), f)
+        if mine():
+            key = "ep2_cmp|%s|same-object" % L
+
+            def f(key=key):
+                li_load(A, it)
+                res = R.call("ep2_cmp", A, A)
+                ctx.check((not res.caught) and res.i == EQ, key + "|value", {"got": res.i, "exp": EQ})
+            li_run(key, d0, f)
+        others = [LI[(LI.index(it) + 7) % len(LI)], LI[(LI.index(it) + 13) % len(LI)]]
+        for ot in others:
+            for side in (0, 1):
+                if not mine():
+                    continue
+                key = "ep2_cmp|%s|lib-inf:%s" % ((L, ot["fam"]) if side == 0 else ("lib-inf:" + ot["fam"], fam))
+
+                def f(ot=ot, side=side, key=key):
+                    li_load(A, it)
+                    li_load(B, ot)
+                    res = R.call("ep2_cmp", A, B) if side == 0 else R.call("ep2_cmp", B, A)
+                    ctx.check((not res.caught) and res.i == EQ, key + "|value", {"got": res.i, "exp": EQ, "other": ot["name"]})
+                li_run(key, dict(d0, other=ot["desc"]), f)
+        for form, inf in (("A", "lib"), ("P", "proj"), ("J", "proj")):
+            if not mine():
+                continue
+            key = "ep2_cmp|%s|inf:%s" % (L, form)
+
+            def f(form=form, inf=inf, key=key):
+                li_load(A, it)
+                env.wr(B, None, form, inf=inf)
+                res = R.call("ep2_cmp", A, B)
+                ctx.check((not res.caught) and res.i == EQ, key + "|value", {"got": res.i, "exp": EQ})
+            li_run(key, dict(d0, form=form), f)
+
+        # ---- predicates and unary routines (dispatch on the tag themselves: every identity)
+        if mine():
+            key = "ep2_is_infty|%s" % L
+
+            def f(key=key):
+                li_load(A, it)
+                res = R.call("ep2_is_infty", A)
+                ctx.check((not res.caught) and res.i == 1, key + "|value", {"got": res.i})
+                res = R.call("ep2_on_curve", A)
+                ctx.check((not res.caught) and res.i != 0, key + "|on_curve", {"got": res.i})
+            li_run(key, d0, f)
+        unary = [f_ for f_ in ("ep2_neg", "ep2_norm", "ep2_copy", "ep2_frb") if R.has(f_)]
+        nativeok = it["tag"] in (e.BASIC, env.REP[NAT])
+        for fn in unary + [f_ for f_ in dblfns if f_ != "ep2_dbl_slp_basic"]:
+            if fn.startswith("ep2_dbl") and it["tag"] not in (e.BASIC, env.REP[tags_for(fn.replace("dbl", "add"))[-1]]):
+                continue        # a doubling formula is only given its own projective system
+            for alias in (0, 1):
+                if not mine():
+                    continue
+                key = "%s|%s|alias%d" % (fn, L, alias)
+
+                def f(fn=fn, alias=alias, key=key):
+                    li_load(A, it)
+                    e.poison(C)
+                    out = A if alias else C
+                    res = R.call(fn, out, A, 1) if fn == "ep2_frb" else R.call(fn, out, A)
+                    env.judge(out, None, res, norm=(fn == "ep2_norm"))
+                li_run(key, d0, f)
+        if R.has("ep2_norm_sim"):
+            for inplace in (0, 1):
+                if not mine():
+                    continue
+                key = "ep2_norm_sim|%s|%s" % (L, "inplace" if inplace else "separate")
+
+                def f(inplace=inplace, key=key):
+                    pts = [anypoint()[1], None, anypoint()[1]]
+                    src = e.new(3)
+                    dst = src if inplace else e.new(3)
+                    try:
+                        env.wr(e.at(src, 0), pts[0], rng.choice("APJ"))
+                        li_load(e.at(src, 1), it)
+                        env.wr(e.at(src, 2), pts[2], rng.choice("APJ"))
+                        res = R.call("ep2_norm_sim", dst, src, 3)
+                        if res.caught:
+                            ctx.check(False, key + "|unexpected-error", {"err": res.err})
+                            env.canary()
+                            return
+                        for i in range(3):
+                            pt, coord, canon, z = e.get(e.at(dst, i), F2)
+                            ctx.check(E.eq(pt, pts[i]), key + "|value", {"i": i, "got": pd(pt), "exp": pd(pts[i])})
+                    finally:
+                        R.free(src)
+                        if not inplace:
+                            R.free(dst)
+                li_run(key, d0, f)
+
+        # the costly consumers below run once per distinct SHAPE of the identity (coordinate tag, x zero or not, y zero or
+        # not; the description lists the producers that returned it), the cheap ones above for every producer
+        if LIREP[it["shape"]] is not it:
+            return
+        d0 = dict(d0, same_shape_from=[o["name"] for o in LI if o["shape"] == it["shape"]][:12])
+
+        # ---- binary group law: the identity as either operand, in place, with a finite point in the routine's forms
+        for fn in [f_ for f_ in addfns if f_ != "ep2_add_slp_basic"]:
+            tg = tags_for(fn)
+            if it["tag"] not in [env.REP[t_] for t_ in tg]:
+                continue
+            for form in tg:
+                for side in (0, 1):
+                    for alias in (0, 1, 2):
+                        if not mine():
+                            continue
+                        Q = anypoint()[1]
+                        key = "%s|%s|alias%d" % (fn, ("%s|fin:%s" % (L, form)) if side == 0 else ("fin:%s|%s" % (form, L)), alias)
+
+                        def f(fn=fn, form=form, side=side, alias=alias, Q=Q, key=key):
+                            li_load(A, it)
+                            env.wr(B, Q, form)
+                            pa, pb = (A, B) if side == 0 else (B, A)
+                            e.poison(C)
+                            out = {0: C, 1: pa, 2: pb}[alias]
+                            res = R.call(fn, out, pa, pb)
+                            exp = Q if (fn != "ep2_sub" or side == 1) else E.neg(Q)
+                            env.judge(out, exp, res)
+                        li_run(key, dict(d0, Q=pd(Q), form=form), f)
+            if mine():
+                key = "%s|%s|%s" % (fn, L, L)
+
+                def f(fn=fn, key=key):
+                    li_load(A, it)
+                    li_load(B, it)
+                    e.poison(C)
+                    env.judge(C, None, R.call(fn, C, A, B))
+                li_run(key, d0, f, nontrivial=False)
+
+        # ---- scalar multiplication, simultaneous multiplication
+        if nativeok:
+            for fn in mulfns + (["ep2_mul_dig"] if R.has("ep2_mul_dig") else []):
+                for kc, kv in (("zero", 0), ("one", 1), ("rand", rng.randrange(2, n))):
+                    if not mine():
+                        continue
+                    key = "%s|%s|%s" % (fn, kc, L)
+
+                    def f(fn=fn, kv=kv, key=key):
+                        li_load(A, it)
+                        e.poison(C)
+                        if fn == "ep2_mul_dig":
+                            res = R.call(fn, C, A, kv & ((1 << 64) - 1))
+                        else:
+                            env.setk(env.k, kv)
+                            res = R.call(fn, C, A, env.k)
+                        env.judge(C, None, res, norm=True)
+                    li_run(key, dict(d0, k=hx(kv)), f)
+            for fn in simfns:
+                for side in (0, 1):
+                    if not mine():
+                        continue
+                    key = "%s|%s" % (fn, ("%s|fin" % L) if side == 0 else ("fin|%s" % L))
+
+                    def f(fn=fn, side=side, key=key):
+                        bq = rng.choice(S)
+                        kv, mv = rng.randrange(2, n), rng.randrange(2, n)
+                        li_load(A, it)
+                        env.wr(B, bq.P, "A")
+                        env.setk(env.k, kv)
+                        env.setk(env.m, mv)
+                        e.poison(C)
+                        if side == 0:
+                            res = R.call(fn, C, A, env.k, B, env.m)
+                        else:
+                            res = R.call(fn, C, B, env.m, A, env.k)
+                        env.judge(C, bq.mul(mv), res, norm=True)
+                    li_run(key, d0, f)
+
+        # ---- encoding
+        if R.has("ep2_size_bin") and R.has("ep2_write_bin"):
+            for pack in (0, 1):
+                if not mine():
+                    continue
+                key = "ep2_write_bin|%s|pack%d" % (L, pack)
+
+                def f(pack=pack, key=key):
+                    li_load(A, it)
+                    res = R.call("ep2_size_bin", A, pack)
+                    ctx.check((not res.caught) and res.r == 1, key + "|size", {"got": res.r, "caught": res.caught})
+                    for ln in (1, 4 * R.FP_BYTES + 1):
+                        R.poison = rng.randrange(1, 256)
+                        buf = R.mem(ln, R.poison)
+                        res = R.call("ep2_write_bin", buf, ln, A, pack)
+                        got = R.get(buf, ln)
+                        R.free(buf)
+                        ctx.check((not res.caught) and got == bytes(ln), key + "|value",
+                                  {"len": ln, "got": got[:8].hex(), "caught": res.caught})
+                li_run(key, d0, f)
+
+    li_produce()
+    LIREP = {}
+    for it in LI:
+        LIREP.setdefault(it["shape"], it)
+    ctx.note("library_produced_identity_shapes", {part: sorted("tag=%s x=0:%s y=0:%s" % (env.TAG.get(t_, t_), a_, b_)
+                                                               for t_, a_, b_ in LIREP)})
+    ctx.note("library_produced_identities", {part: sorted(set("%s tag=%s zero-xy=%s" % (
+        it["fam"], env.TAG.get(it["tag"], it["tag"]), it["raw"][:e.oy + 2 * R.fp_sz] == bytes(e.oy + 2 * R.fp_sz)) for it in LI))})
+    for it in LI:
+        li_consumers(it)
+
     ctx.note("functions_exercised", sorted(R.fn_seen))
     ctx.note("functions_not_built", sorted(notbuilt))
     ctx.note("error_codes_seen", {str(k): v for k, v in R.err_codes.items()})
